@@ -198,7 +198,9 @@ func (cfg *config) run(ctx context.Context) (err error) {
 
 	defer func() {
 		// No error - remove artifacts unless -k was specified.
-		if err == nil && !cfg.removeAll && !cfg.keepArtifacts {
+		// (With --clear alone everything is erased below anyway; with
+		// an upload the artifacts must be gone before it starts.)
+		if err == nil && !cfg.keepArtifacts && (!cfg.removeAll || cfg.uploadURL != "") {
 			ap.narrate(I, "🧹", "no foul, removing artifacts: %s", cfg.artifactsDir())
 			err = os.RemoveAll(cfg.artifactsDir())
 		}
